@@ -2,6 +2,7 @@
 # usage: tools/try_copy.sh <patch.diff> <property id>...   -- like try_patch.sh, but on the scratch copy /tmp/rw (KYUPY_REPO)
 P="$1"; shift
 R=/tmp/rw
+[ -d $R ] || git -C /repo worktree add -q --detach $R HEAD      # scratch worktree; remove it when done: git -C /repo worktree remove --force /tmp/rw
 git -C $R checkout -q -- . ; git -C $R apply "$P" || { echo "patch does not apply"; exit 2; }
 export VERIF_OUT=/tmp/tryc_out
 for id in "$@"; do
